@@ -49,8 +49,12 @@ func decPow10(m int64, exp int) sdk.Dec { // m * 10^exp
 // repMetric: latency / sync value from zero and the smallest Dec to huge.
 func (s *Sim) repMetric(astro bool) sdk.Dec {
 	if astro && s.R.Intn(2) == 0 {
-		if s.R.Intn(2) == 0 {
+		switch s.R.Intn(8) {
+		case 0, 1:
 			return decPow10(int64(1+s.R.Intn(9)), 6+s.R.Intn(4)) // 1e6 .. 9e9: around the report validation's bound (1e9)
+		case 2, 3, 4:
+			// the squares of these still fit a LegacyDec (so the tx itself does not fail) but a few of them summed do not
+			return decPow10(int64(1+s.R.Intn(9)), 36+s.R.Intn(2))
 		}
 		return decPow10(int64(1+s.R.Intn(9)), 24+s.R.Intn(14)) // 1e24 .. 9e37 (rejected by the report validation since the fix)
 	}
